@@ -358,5 +358,5 @@ pub fn property(tier: Tier) -> Property {
             exhaustive: false,
         }));
     }
-    Property { id: "C04", stages, assumptions: vec!["scope as stated by the property: bound names bound once and not free; no class with a redundant slot (checked per case, counted)".into()] }
+    Property { id: "C04", scale: tier.pick(5, 2), stages, assumptions: vec!["scope as stated by the property: bound names bound once and not free; no class with a redundant slot (checked per case, counted)".into()] }
 }
